@@ -11,6 +11,20 @@ read by harness/props/_graphgen.parse (tab splitting; E lines classified by geom
     the images of the dovetails on the chain's two outer ends (end map: entry end -> L, exit end -> R of the merged
     segment), every line not touching a chain textually unchanged, nothing else new, components preserved with each
     chain collapsed, references closed and mirrored, a second merge changes nothing.
+  * GFA2, "inherits exactly the chain's outward dovetails": every outward E line is also compared with its
+    INTERVALS: the image covers, on the merged segment, a prefix (entry end) or a suffix (exit end) exactly as long
+    as the interval it covered on the chain member, the interval on a segment that is not merged is the one it had,
+    and the alignment is the one it had (signature outward-dovetail-intervals-wrong).  The comparison is made on
+    (segment end, interval length) per side, the two sides taken in either order (with I/D exchanged in a CIGAR when
+    the sides are exchanged), so that the written direction of the re-attached edge stays free.
+
+Generator (gen_case): _graphgen.gen_graph, a validation level, IUPAC codes in 40% of the documents, and - GFA2, 60%
+of the documents - outward dovetails whose two intervals have DIFFERENT lengths (_unequal_outward): dovetails that
+are not usable joins (junction edges, parallel edges, hairpins and self-links on chain ends, ...) get another
+interval length on one side (0 .. length-1, still a prefix/suffix on the same end) and an alignment which agrees
+with the two lengths: a CIGAR with insertions/deletions (3M1D, 2M2I1M), `*`, or a trace.  The usable joins keep
+their match-only overlaps (merging through other operations is outside the quantifier), so the chains, the
+spelled sequences and the expected merged lengths are those of the unmodified document.
 
 Signatures of merge-phase failures carry a domain prefix (vlevel3- / mixedseq- / gfa2-, see oracle()) so that the
 open roots seen on the tree (merge at validation level 3; chains mixing `*` and sequence members; GFA2 edge
@@ -32,13 +46,16 @@ NOT CHECKED (the property text does not settle it, or the documented behaviour i
     empty (cut 0 by the alignment, k by the coordinates).
   * overlaps with operations other than M/= (outside the quantifier).
 """
+import re
 from harness import lib
 from harness.props import _graphgen as G
 
 ID = "C14"
 RULE = ("random assembly-like graphs (_graphgen.gen_graph: chains 2-8 with all orientation mixes, junctions, dead ends, "
         "cycles, self-links/hairpins on chain ends, parallel edges, containments, internals, GFA1/GFA2, with and "
-        "without sequences, overlaps * / kM / k=), <= 10 segments quick, <= 30 thorough. Non-trivial: the text has at "
+        "without sequences, overlaps * / kM / k=), <= 10 segments quick, <= 30 thorough; in 60% of the GFA2 documents "
+        "the dovetails that are not usable joins get intervals of different length on their two segments with an "
+        "alignment that agrees (CIGAR with I/D, `*`, trace). Non-trivial: the text has at "
         "least one chain or cycle of usable joins; distinct by case hash.")
 CASE_TIMEOUT = 60
 
@@ -71,7 +88,58 @@ def gen_case(rng, tier, i):
                 f[col] = "".join(rng.choice(codes) if rng.random() < 0.5 else ch for ch in f[col])
             out.append("\t".join(f))
         c["lines"] = out
+    if c["version"] == "gfa2" and rng.random() < 0.6:
+        c["lines"] = _unequal_outward(rng, c["lines"])
     return c
+
+
+def _alignment_for(rng, n1, n2):
+    """an alignment field that is legal for an interval of n1 positions on sid1 and of n2 positions on sid2"""
+    r = rng.random()
+    m = min(n1, n2)
+    if r < 0.3 or n1 == n2 == 0:
+        return "*"
+    if m == 0:
+        return rng.choice(["*", "%dD" % n1 if n1 else "%dI" % n2])
+    if r < 0.45:
+        return rng.choice(["1", "2", "1,1", "2,1", "%d" % max(n2, 1)])      # a trace
+    gap = "%dD" % (n1 - m) if n1 > m else "%dI" % (n2 - m)
+    if m >= 2 and rng.random() < 0.5:
+        j = rng.randint(1, m - 1)
+        return "%dM%s%dM" % (j, gap, m - j)
+    return ("%dM%s" % (m, gap)) if rng.random() < 0.7 else ("%s%dM" % (gap, m))
+
+
+def _unequal_outward(rng, lines, p_edge=0.7):
+    """GFA2: the dovetails that are NOT usable joins get an interval of another length on one of their sides (still
+    a prefix/suffix on the same segment end, never the whole segment) and an alignment that agrees with the two
+    lengths.  Chains, cycles and joins of the document are unchanged (they depend on the ends only)."""
+    d = G.parse(lines, "gfa2")
+    if len(d.lines) != len(lines):
+        return lines
+    _, _, joins = G.chains(d)
+    usable = set(id(e) for e in joins.values())
+    out = list(d.lines)
+    for e in d.dovetails:
+        if e["rt"] != "E" or not e["valid"] or id(e) in usable or rng.random() >= p_edge:
+            continue
+        f = e["line"].split("\t")
+        side = rng.randrange(2)
+        n = d.segs[(e["a"], e["b"])[side]]["len"]
+        end = e["ends"][side][1]
+        old = G._pos(f[5 + 2 * side])[0] - G._pos(f[4 + 2 * side])[0]
+        cand = [k for k in range(0, n) if k != old]
+        if not cand:
+            continue
+        k = rng.choice(cand)
+        b, en = (0, k) if end == "L" else (n - k, n)
+        f[4 + 2 * side] = "%d$" % b if b == n else str(b)
+        f[5 + 2 * side] = "%d$" % en if en == n else str(en)
+        n1 = G._pos(f[5])[0] - G._pos(f[4])[0]
+        n2 = G._pos(f[7])[0] - G._pos(f[6])[0]
+        f[8] = _alignment_for(rng, n1, n2)
+        out[e["idx"]] = "\t".join(f)
+    return out
 
 
 def _doc(case):
@@ -104,6 +172,26 @@ def _edge_cut(e):
         if e1 != b1 or e2 != b2:
             return None
     return e["cut"]
+
+
+_SWAP_ID = {"I": "D", "D": "I"}
+
+
+def _ikey(ends, e):
+    """an E dovetail as ((end, interval length) of one side, the same of the other side, alignment), independent of
+    the written direction: the sides in either order (I and D exchanged when the sides are), a CIGAR read from
+    either strand (order of the operations reversed); `*` and traces are compared as written"""
+    (b1, _), (e1, _), (b2, _), (e2, _) = [G._pos(x) for x in e["coords"]]
+    s1, s2 = (tuple(ends[0]), e1 - b1), (tuple(ends[1]), e2 - b2)
+    ovl = e["ovl"]
+    if re.match(r"^([0-9]+[MIDNSHPX=])+$", ovl):
+        ops = tuple(G.cigar_ops(ovl))
+        swp = tuple((n, _SWAP_ID.get(k, k)) for n, k in ops)
+        a = ("cigar", min(ops, tuple(reversed(ops))))
+        b = ("cigar", min(swp, tuple(reversed(swp))))
+    else:
+        a = b = ("raw", ovl)
+    return min((s1, s2, a), (s2, s1, b))
 
 
 QUERY_PHASE = ("linear-paths-", "linear-path-of-segment-")
@@ -275,6 +363,19 @@ def _oracle(case):
         miss = [k for k in want if want[k] > have.get(k, 0)]
         extra = [k for k in have if have[k] > want.get(k, 0)]
         F.append("outward-dovetails-wrong: chains %r: missing %r, unexpected %r" % (sorted(chain_of_new.items()), miss, extra))
+    # GFA2: the same, with the length of the interval on each side (an outward dovetail is a prefix of the merged
+    # segment at its L end and a suffix at its R end, as long as the interval it covered on the chain member)
+    if case["version"] == "gfa2":
+        want = G.multiset(_ikey([endmap.get(x, x) for x in e["ends"]], e) for e in d0.dovetails
+                          if e["rt"] == "E" and frozenset(e["ends"]) not in internal_joins)
+        have = G.multiset(_ikey(e["ends"], e) for e in d1d.dovetails if e["rt"] == "E")
+        if want != have:
+            miss = [k for k in want if want[k] > have.get(k, 0)]
+            extra = [k for k in have if have[k] > want.get(k, 0)]
+            F.append("outward-dovetail-intervals-wrong: chains %r: ((end, interval length) x 2, alignment) missing %r, "
+                     "unexpected %r; lines now on the merged segments: %r"
+                     % (sorted(chain_of_new.items()), miss, extra,
+                        [e["line"] for e in d1d.dovetails if any(x[0] in chain_of_new for x in e["ends"])]))
     # frame
     T = G.touching(d0, members)
     untouched = G.multiset(r_["line"] for r_ in d0.recs if r_["idx"] not in T)
